@@ -38,7 +38,8 @@ def policy : Region → List Cls
   | .cellsModifierMerge => [.MalformedInputError, .ParsingError, .BrokenObjectLinkError]
   | .cellsCellLoop =>
       [.MalformedInputError, .ParsingError, .BrokenObjectLinkError, .ParticleTypeNotInProblem, .ParticleTypeNotInCell]
-  | .cellsBlankModifiers => [.MalformedInputError, .ParsingError, .BrokenObjectLinkError]
+  | .cellsBlankModifiers =>
+      [.MalformedInputError, .ParsingError, .BrokenObjectLinkError, .ParticleTypeNotInProblem, .ParticleTypeNotInCell]
   | .objectInit =>
       [.MalformedInputError, .ParsingError, .BrokenObjectLinkError, .RedundantParameterSpecification,
        .ParticleTypeNotInProblem, .ParticleTypeNotInCell, .UnknownElement, .IllegalState, .ValueError, .UnicodeDecodeError]
